@@ -389,6 +389,27 @@ let run_rev t : string * string =
           | Some mg -> "|" ^ show "mg" mg in
         (show "rv" rev ^ m, "-")
 
+
+(* ---------- C15: resource ledger ---------- *)
+let run_res t : string * string =
+  let sc = next t in let kind = next t in let thr = next_int t in let size = next_int t in
+  let _fault = next_int t in let _spec = next_int t in
+  let head = if kind = "h" then 44 else 0 in
+  let count l = List.length l in
+  let step name (l, _) = Printf.sprintf "%s:t%d,f%d" name (count l) (count l) in
+  match sc with
+  | "builder-close" ->
+    let st = builder_fill (nat_of_int thr) (nat_of_int (head + size)) O in
+    (step "filled" st ^ Printf.sprintf ";closed:t%d,f%d" (count (close_all st)) (count (close_all st)), "-")
+  | "build-close" ->
+    let st = builder_fill (nat_of_int thr) (nat_of_int (head + size)) O in
+    (step "built" st ^ Printf.sprintf ";closed:t%d,f%d" (count (close_all st)) (count (close_all st)), "-")
+  | "parse-close" ->
+    (* the parsed record's block is copied into a fresh buffer: the payload for HTTP blocks *)
+    let st = unmarshal_res (nat_of_int thr) (nat_of_int size) O None in
+    (step "parsed" st ^ Printf.sprintf ";closed:t%d,f%d" (count (close_all st)) (count (close_all st)), "-")
+  | _ -> ("-", "-")
+
 (* ---------- main ---------- *)
 let run_line (line : string) : string * string =
   let t = { rest = List.filter (fun s -> s <> "") (String.split_on_char ' ' line) } in
@@ -403,6 +424,7 @@ let run_line (line : string) : string * string =
   | "unm" -> run_unm t
   | "writer" -> run_writer t
   | "rev" -> run_rev t
+  | "res" -> run_res t
   | d -> failwith ("unknown domain " ^ d)
 
 let () =
